@@ -18,7 +18,7 @@ RULE = (
     "per (mode, nchans, data class): BFS from the empty accumulator; transition = push_data(next k samples) for every k in "
     "1..remaining (all 2^(n-1) compositions of n are paths of this graph); state key = (position, moments.tobytes()), identical "
     "states merged; every terminal state compared with two-pass float64 (count/min/max exact, moments within 50*eps32*n). Merges: "
-    "every split point, each side fed whole and sample-by-sample, a+b and b+a, and every 3-way split as (a+b)+c and a+(b+c). "
+    "every split point, each side fed whole and sample-by-sample, a+b and b+a, every 3-way split as (a+b)+c and a+(b+c), and (a+b) followed by pushing the rest of the stream into the sum. "
     "Non-trivial = terminal states reached through >= 2 chunks, and every merge"
 )
 ASSUMPTIONS = [
@@ -26,7 +26,7 @@ ASSUMPTIONS = [
     "skewness/kurtosis are compared only on channels with non-zero variance; constant channels must report var == skew == 0 exactly",
     "kernels run with one numba thread here; thread independence is C19's subject",
 ]
-REQUIRED_OUTCOMES = ["terminal/ok", "terminal/constant_channel_ok", "merge2/ok", "merge3/ok"]
+REQUIRED_OUTCOMES = ["terminal/ok", "terminal/constant_channel_ok", "merge2/ok", "merge3/ok", "merge_then_push/ok"]
 
 EPS32 = float(np.finfo(np.float32).eps)
 CLASSES = ["constant", "onebit", "eightbit", "wide", "outlier", "mixed_const", "small_amplitude"]
@@ -248,6 +248,32 @@ def _merge(shard, X, ChannelStats, res, only):
                 if _verify(t, X, mode, res, case, "ChannelStats.__add__"):
                     res.outcome("merge3/ok")
                     res.nontrivial += 1
+    # a merged accumulator keeps accumulating: (a + b), then the rest of the stream pushed into the sum as a non-first chunk
+    for s1 in range(1, n - 1):
+        for s2 in range(s1 + 1, n):
+            inner = ["merge_then_push", s1, s2]
+            if only is not None and inner != only:
+                continue
+            res.evaluations += 1
+            case = {"shard": shard, "inner": inner}
+            try:
+                t = acc(0, s1, False) + acc(s1, s2, s1 % 2 == 0)
+                _push(t, X, s2, n, mode, s2)
+            except Exception as e:  # noqa: BLE001
+                res.violation({"site": "ChannelStats.__add__ then push_data", "symptom": f"raised {type(e).__name__}", "mode": mode}, case, repr(e))
+                continue
+            # the sum was declared with the sample count of its two operands, so the count-normalised statistics (variance and up) are not defined for
+            # this use; count, extrema and mean are
+            nref, mn, mx, m, *_ = _ref(X)
+            cnt = np.asarray(t.moments["count"])
+            gmn, gmx, gm = (np.asarray(a, dtype=np.float64) for a in (t.minima, t.maxima, t.mean))
+            scale = np.maximum(np.abs(X.astype(np.float64)).max(0), 1e-30)
+            if not np.all(cnt == nref) or not np.array_equal(gmn, mn) or not np.array_equal(gmx, mx) or not np.all(np.abs(gm - m) / scale <= 50 * EPS32 * nref):
+                res.violation({"site": "ChannelStats.__add__ then push_data", "symptom": "count/min/max/mean differ after pushing into a merged accumulator", "mode": mode}, case,
+                              f"count {cnt.tolist()} want {nref}; min {gmn.tolist()} want {mn.tolist()}; max {gmx.tolist()} want {mx.tolist()}; mean {gm.tolist()} want {m.tolist()}")
+                continue
+            res.outcome("merge_then_push/ok")
+            res.nontrivial += 1
     # large accumulators (millions of samples per side): the merge formulas contain count**2 and count**3
     if C == 1 and shard["cls"] in ("wide", "eightbit"):
         for nbig, sbig in ((300_000, 100_000), (3_000_000, 1_500_000), (5_000_000, 1_000_000)):
